@@ -129,16 +129,18 @@ Inductive ev :=
        the caller's environment; res receive the callee's return values ("" = ignored) *)
 | EDyn (s : string)                       (* interface method / callback call: no effect here *)
 | EExt (s : string)                       (* call into another package (stdlib, cgo): no effect here *)
-| ENote (s : string)                      (* DKGProcessor callback: observable, no effect here *)
+| ENote (s : string)                      (* DKGProcessor callback: counted in the entry note_name s *)
 | EUnknown (s : string).                  (* not understood by the translator: counts as a panic *)
 
 Inductive outcome :=
 | Cont (e : env)
-| Returned (tag : string) (vs : list Z)
+| Returned (tag : string) (vs : list Z) (e : env)   (* e: environment at the return (notes) *)
 | Broke
 | Panicked (t : string).
 
 Definition loop_oracle (i : string) : string := i ++ "@".
+(* number of calls of the DKGProcessor callback s so far on this path *)
+Definition note_name (s : string) : string := "note:" ++ s.
 
 Fixpoint assoc (k : string) (l : list (string * Z)) : option Z :=
   match l with
@@ -184,7 +186,7 @@ Fixpoint bind_res (e : env) (res : list string) (vs : list Z) : env :=
 Definition call_out (e : env) (res : list string) (os : list outcome) : list outcome :=
   map (fun o => match o with
                 | Cont _ | Broke => Cont (bind_res e res [])
-                | Returned _ vs => Cont (bind_res e res vs)
+                | Returned _ vs _ => Cont (bind_res e res vs)
                 | Panicked t => Panicked t
                 end) os.
 
@@ -200,7 +202,7 @@ Section Exec.
         | Some false => run_list (one call) b e
         | None => (run_list (one call) a e ++ run_list (one call) b e)%list
         end
-    | ERet tag vs => [Returned tag (map (fun t => teval t e) vs)]
+    | ERet tag vs => [Returned tag (map (fun t => teval t e) vs) e]
     | ELoopRange i x body =>
         let iv := e (loop_oracle i) in
         Cont e :: (if (0 <=? iv) && (iv <? e x)
@@ -227,7 +229,8 @@ Section Exec.
         | Some body => call_out e res (call body (call_env e binds rfrom rto))
         | None => [Panicked ("unknown function " ++ f)]
         end
-    | EDyn _ | EExt _ | ENote _ => [Cont e]
+    | EDyn _ | EExt _ => [Cont e]
+    | ENote s => [Cont (upd e (note_name s) (e (note_name s) + 1))]
     | EUnknown s => [Panicked ("not understood: " ++ s)]
     end.
 
